@@ -18,8 +18,9 @@ def classify(cs, data, now, orig_id, orig_bytes, res, info):
         cs.add_block(b, now)
     except Exception:
         return "r"
-    res.violations.append({"kind": "an altered encoding of a valid block was accepted", "altered": data.hex(),
-                           "original": orig_bytes.hex(), "same_id": b.hash() == orig_id, **info})
+    if len(res.violations) < 40:
+        res.violations.append({"kind": "an altered encoding of a valid block was accepted", "altered": data.hex(),
+                               "original": orig_bytes.hex(), "same_id": b.hash() == orig_id, **info})
     return "a"
 
 
@@ -96,6 +97,47 @@ def run(ctx):
             done += 1
         model = ctx.driver.ask(ops)
         kit.compare(res, ops, impl, model)
+    # one large block per run: a reward paying several hundred outputs (a pool's pay-out; a single transaction of more than
+    # 64 KiB) — sampled bit flips and truncations all over it, most of them far behind the first 64 KiB (monitors only)
+    from . import ledger
+    from skepticoin.datatypes import Transaction, Input, Output
+    from skepticoin.signing import CoinbaseData
+    chain.patch(horizon=-1)
+    keys = chain.Keys(rng, 4)
+    tree = chain.Tree(rng, keys, genesis=chain.custom_genesis(keys, target=bytes([0x7f]) + b"\xff" * 31))
+    tree.grow(4, fork_prob=0.0)
+    parent = tree.cs.current_chain_hash
+    h_ = tree.cs.block_by_hash[parent].height + 1
+    n_out = rng.randrange(930, 1000)
+    share = chain.subsidy(h_) // n_out
+    vals = [share] * (n_out - 1) + [chain.subsidy(h_) - share * (n_out - 1)]
+    cb = Transaction([Input(ledger.NULLREF, CoinbaseData(h_, b"pool"))], [Output(v_, keys.pk(i_ % 4)) for i_, v_ in enumerate(vals)])
+    big = ledger.Crafter(tree).craft(parent, txs=[cb] + tree.random_txs(parent, 1))
+    now = big.timestamp + 5
+    raw = big.serialize()
+    try:
+        with_big = tree.cs.add_block(Block.deserialize(raw), now)
+    except Exception as e:
+        with_big = None
+        res.notes.append("generator produced an invalid large block: %r" % e)
+    if with_big is not None:
+        info = {"tree": [b.serialize().hex() for b in tree.blocks], "now": now, "large_block_bytes": len(raw)}
+        positions = sorted({rng.randrange(0, 8 * len(raw)) for _ in range(ctx.scale(260, 1500))}
+                           | {8 * (65536 + k_) + (k_ % 8) for k_ in range(0, len(raw) - 65536 - 1, max(1, (len(raw) - 65536) // 60))})
+        for i in positions:
+            m = bytearray(raw)
+            m[i // 8] ^= 1 << (i % 8)
+            c_ = classify(tree.cs, bytes(m), now, big.hash(), raw[:64], res, {**info, "flipped_bit": i})
+            if c_ != "u":
+                classify(with_big, bytes(m), now, big.hash(), raw[:64], res,
+                         {**info, "flipped_bit": i, "offered_to": "the chain that already contains the original"})
+        for n in sorted({rng.randrange(1, len(raw)) for _ in range(40)} | {65536, 65537, len(raw) - 1, len(raw) - 64}):
+            if classify(tree.cs, raw[:n], now, big.hash(), raw[:64], res, {**info, "truncated_to": n}) != "u":
+                res.violations.append({"kind": "a truncated encoding decodes", "length": n, "large_block_bytes": len(raw)})
+        res.evaluations += len(positions) + 44
+        res.nontrivial.add(hashlib.sha256(raw).digest()[:12])
+        res.count("large_block_alterations", len(positions) + 44)
+        res.count("large_block_bytes", len(raw))
     chain.unpatch()
     res.exhaustive = True
     res.rule = ("fresh fully valid blocks (0-3 signed spends) on random parents of random forked trees; for each block every "
